@@ -96,7 +96,7 @@ pub fn check(sh: &Shared, case: &Case) -> Check {
         Ok((a, b)) => fail!("format:specific-differs", "format_narsese = {s:?}\nformat(&value) = {a:?}\nformat_to = {b:?}"),
         Err(p) => fail!("format:panic", "generic formatter entry point panicked: {p}"),
     }
-    let r: Result<Result<Narsese, _>, String> = guard(|| f.parse::<Narsese>(&s));
+    let r: Result<Result<Narsese, String>, String> = crate::pipes::enum_parse_raw(fi, &s);
     let w = match r {
         Err(p) => fail!("parse:panic", "text {s:?}\npanic {p}"),
         Ok(Err(e)) => fail!("roundtrip:err", "text {s:?}\nparse error: {e}"),
@@ -311,7 +311,7 @@ pub fn very_deep() -> BoxedStrategy<Case> {
         let non_atoms: Vec<Kind> = ALL_KINDS.iter().copied().filter(|k| !k.is_atom()).collect();
         let small = gen::atom(gen::TermOpts { placeholders: false, ..o });
         let multi: Vec<Kind> = ALL_KINDS.iter().copied().filter(|k| k.is_multi()).collect();
-        (proptest::sample::select(non_atoms), 100usize..=600, small.clone(), small, any::<u16>(), gen::punct(), any::<bool>(), proptest::option::weighted(0.3, (proptest::sample::select(multi), 100usize..=400)))
+        (proptest::sample::select(non_atoms), 100usize..=600, small.clone(), small, any::<u16>(), gen::punct(), any::<bool>(), proptest::option::weighted(0.3, (proptest::sample::select(multi), prop_oneof![85 => 100usize..=400, 15 => 1000usize..=5000])))
             .prop_map(|(k, depth, base, side, frac, p, as_sentence, wide)| {
                 let mut cur = base;
                 if let Some((wk, n)) = wide {
